@@ -29,6 +29,10 @@ M = [
  ("rs_flag_reset_removed", "src/replace_source.rs", "      enforce,\n    ));\n    self.is_sorted.store(false, Ordering::SeqCst);", "      enforce,\n    ));", {"C05": "V"}),
  ("rs_sort_key_order", "src/replace_source.rs", "(a.start, a.end, a.enforce).cmp(&(b.start, b.end, b.enforce))", "(a.start, a.enforce, a.end).cmp(&(b.start, b.enforce, b.end))", {"C05": "V"}),
  ("rs_clone_flag", "src/replace_source.rs", "      sorted_index: Mutex::new(self.sorted_index.lock().unwrap().clone()),", "      sorted_index: Mutex::new(Vec::new()),", {"C05": "V"}),
+ ("line0_guard_removed", "src/replace_source.rs", "  if line == 0 {\n    return false;\n  }\n", "", {"C17": "V"}),
+ ("lines_plus1_overflow", "src/encoder.rs", "        if self.current_original_line.checked_add(1)\n          == Some(original.original_line)\n        {", "        if original.original_line == self.current_original_line + 1 {", {"C17": "V", "C12": "P"}),
+ ("insert_swapped_args", "src/replace_source.rs", "    self.replace_with_enforce(start, start, content, name, enforce)", "    self.replace_with_enforce(start, start + 1, content, name, enforce)", {"C05": "V"}),
+ ("rope_max_removed", "src/replace_source.rs", "        inner_pos = inner_pos\n          .max(replacement.end)\n          .min(inner_source_code.len() as u32);\n      }\n    }\n    let slice =", "        inner_pos = replacement.end\n          .min(inner_source_code.len() as u32);\n      }\n    }\n    let slice =", {"C05": "V"}),
  # ---- benign ----
  ("benign_rename_local", "src/encoder.rs", "let mut digit = num & 0b11111;\n    num >>= 5;\n    if num > 0 {\n      digit |= 1 << 5;\n    }\n    out.push(B64_CHARS[digit as usize]);",
   "let mut dg = num & 0b11111;\n    num >>= 5;\n    if num > 0 {\n      dg |= 1 << 5;\n    }\n    out.push(B64_CHARS[dg as usize]);", {"C12": "P", "C17": "P"}),
